@@ -5,6 +5,8 @@ pub mod common;
 pub mod convert;
 pub mod fx;
 pub mod matching;
+#[cfg(cgt_verif)]
+pub mod order;
 pub mod relational;
 pub mod report;
 pub mod text;
@@ -20,6 +22,9 @@ pub fn run(prop: &str, sk: &Skeleton) -> Leaf {
         "C07mcp" => report::c07_mcp(sk),
         "C07" => report::c07(sk),
         "C08" => fx::c08(sk),
+        "C13parse" => text::c13_parse(sk),
+        #[cfg(cgt_verif)]
+        "C16" => order::c16(sk),
         "C14" => text::c14(sk),
         "C18" => convert::c18(sk),
         "C19" => convert::c19(sk),
